@@ -5,9 +5,13 @@ package main
 import (
 	"bufio"
 	"fmt"
+	"io"
 	"os"
+	"os/exec"
+	"runtime/debug"
 	"strconv"
 	"strings"
+	"time"
 
 	"verif/harness/sx"
 )
@@ -34,6 +38,8 @@ func pick[T any](r *Rng, l []T) T { return l[r.Intn(len(l))] }
 
 // Family is one kind of case: a generator and a runner.
 type Family struct {
+	// Label is the family name written into the cases (the model dispatches on it); default: the registry key.
+	Label string
 	// Gen emits case payloads (without the (case ID FAMILY ...) wrapper).
 	Gen func(r *Rng, tier string, emit func(payload *sx.Node))
 	// Run executes one payload on the implementation and returns the observation.
@@ -41,6 +47,123 @@ type Family struct {
 }
 
 var families = map[string]*Family{}
+
+// familyByLabel finds the runner for a case's family label.
+func familyByLabel(label string) *Family {
+	if f, ok := families[label]; ok {
+		return f
+	}
+	for _, f := range families {
+		if f.Label == label {
+			return f
+		}
+	}
+	return nil
+}
+
+func runLine(line string) string {
+	c, err := sx.Parse(line)
+	if err != nil || len(c.List) != 4 {
+		return `(bad "parse error")`
+	}
+	f := familyByLabel(c.List[2].Atom)
+	if f == nil {
+		return sx.L(sx.A("obs"), c.List[1], sx.L(sx.A("bad"), sx.S("unknown family"))).String()
+	}
+	return sx.L(sx.A("obs"), c.List[1], guarded(f.Run, c.List[3])).String()
+}
+
+// worker: one case per line on stdin, one observation per line on stdout.
+func worker() {
+	debug.SetMaxStack(64 << 20) // a runaway recursion dies quickly instead of eating a gigabyte
+	sc := bufio.NewScanner(os.Stdin)
+	sc.Buffer(make([]byte, 1<<20), 1<<28)
+	w := bufio.NewWriter(os.Stdout)
+	for sc.Scan() {
+		fmt.Fprintln(w, runLine(sc.Text()))
+		w.Flush()
+	}
+}
+
+type workerProc struct {
+	cmd *exec.Cmd
+	in  io.WriteCloser
+	out *bufio.Reader
+}
+
+func startWorker() *workerProc {
+	cmd := exec.Command(os.Args[0], "worker")
+	in, _ := cmd.StdinPipe()
+	out, _ := cmd.StdoutPipe()
+	cmd.Stderr = nil
+	if err := cmd.Start(); err != nil {
+		panic(err)
+	}
+	return &workerProc{cmd, in, bufio.NewReaderSize(out, 1<<20)}
+}
+func (w *workerProc) kill() {
+	w.in.Close()
+	_ = w.cmd.Process.Kill()
+	_ = w.cmd.Wait()
+}
+
+// supervise runs every case in a worker process: a fatal error (stack overflow) or a hang
+// in the SDK is an observation (crash / hang), not the end of the run.
+func supervise(inPath, outPath string) {
+	in, err := os.Open(inPath)
+	if err != nil {
+		panic(err)
+	}
+	out, err := os.Create(outPath)
+	if err != nil {
+		panic(err)
+	}
+	w := bufio.NewWriterSize(out, 1<<20)
+	sc := bufio.NewScanner(in)
+	sc.Buffer(make([]byte, 1<<20), 1<<28)
+	wk := startWorker()
+	type resp struct {
+		line string
+		err  error
+	}
+	for sc.Scan() {
+		line := sc.Text()
+		if line == "" || strings.HasPrefix(line, ";") {
+			continue
+		}
+		id := "?"
+		if c, err := sx.Parse(line); err == nil && len(c.List) > 1 {
+			id = c.List[1].Atom
+		}
+		if _, err := io.WriteString(wk.in, line+"\n"); err != nil {
+			wk.kill()
+			wk = startWorker()
+			_, _ = io.WriteString(wk.in, line+"\n")
+		}
+		ch := make(chan resp, 1)
+		go func(r *bufio.Reader) {
+			l, err := r.ReadString('\n')
+			ch <- resp{l, err}
+		}(wk.out)
+		select {
+		case r := <-ch:
+			if r.err != nil {
+				fmt.Fprintf(w, "(obs %s crash)\n", id)
+				wk.kill()
+				wk = startWorker()
+			} else {
+				w.WriteString(r.line)
+			}
+		case <-time.After(20 * time.Second):
+			fmt.Fprintf(w, "(obs %s hang)\n", id)
+			wk.kill()
+			wk = startWorker()
+		}
+	}
+	wk.kill()
+	w.Flush()
+	out.Close()
+}
 
 // guarded runs one case; a panic escaping the family's own supervision is an observation.
 func guarded(run func(*sx.Node) *sx.Node, p *sx.Node) (res *sx.Node) {
@@ -72,44 +195,21 @@ func main() {
 		}
 		w := bufio.NewWriterSize(out, 1<<20)
 		n := 0
+		label := fam
+		if f.Label != "" {
+			label = f.Label
+		}
 		f.Gen(&Rng{s: seed}, tier, func(p *sx.Node) {
 			n++
-			fmt.Fprintln(w, sx.L(sx.A("case"), sx.I(int64(n)), sx.A(fam), p).String())
+			fmt.Fprintln(w, sx.L(sx.A("case"), sx.I(int64(n)), sx.A(label), p).String())
 		})
 		w.Flush()
 		out.Close()
 		fmt.Printf("generated %d cases\n", n)
 	case "run":
-		in, err := os.Open(os.Args[2])
-		if err != nil {
-			panic(err)
-		}
-		out, err := os.Create(os.Args[3])
-		if err != nil {
-			panic(err)
-		}
-		w := bufio.NewWriterSize(out, 1<<20)
-		sc := bufio.NewScanner(in)
-		sc.Buffer(make([]byte, 1<<20), 1<<28)
-		for sc.Scan() {
-			line := sc.Text()
-			if line == "" || strings.HasPrefix(line, ";") {
-				continue
-			}
-			c, err := sx.Parse(line)
-			if err != nil || len(c.List) != 4 {
-				fmt.Fprintln(w, `(bad "parse error")`)
-				continue
-			}
-			f, ok := families[c.List[2].Atom]
-			if !ok {
-				fmt.Fprintln(w, sx.L(sx.A("obs"), c.List[1], sx.L(sx.A("bad"), sx.S("unknown family"))).String())
-				continue
-			}
-			fmt.Fprintln(w, sx.L(sx.A("obs"), c.List[1], guarded(f.Run, c.List[3])).String())
-		}
-		w.Flush()
-		out.Close()
+		supervise(os.Args[2], os.Args[3])
+	case "worker":
+		worker()
 	case "tables":
 		writeTables(os.Args[2])
 	default:
